@@ -3,7 +3,7 @@ import copy
 import itertools
 import json
 
-from mc import core, pelgen, decode, impl
+from mc import subchunk, core, pelgen, decode, impl
 from mc.core import ChunkResult
 
 PROPERTY = 'C02'
@@ -17,7 +17,7 @@ LEVEL_TEXT = ('Each displayed field of the five fixed-layout sections is swept t
               'adds all pairs of adjacent fields. The expected display is computed from field values by the formatting '
               'rules in the statement, never from the bytes. A width/offset/mask/neighbour error changes some swept value.')
 LEVEL_NOTE = ('32/64-bit fields only through boundary alphabets; non-BCD timestamp nibbles and non-printable text not '
-              'generated; pel_values tables trusted as the published name tables')
+              'generated; display names come from a frozen copy of the published value tables, not from the repository under test')
 RULE = ('base PEL (PH UH EH MT LP, all fields distinct) x one assignment: every coded byte 0..255, action flags (quick: '
         'stride 17 + single bits + bit pairs; thorough: all 65536), component ids (quick stride 257 + PHYP boundary rows; '
         'thorough all 65536) x creators O/H/x x registry absent/fixture, creator byte 0..127, each BCD byte 00..99 of 3 '
@@ -70,6 +70,8 @@ def plan(tier, seed):
     ch.append({'k': 'ts'})
     ch.append({'k': 'ids', 'pairs': tier == 'thorough'})
     ch.append({'k': 'text'})
+    ch.append({'k': 'text', 'optimize': True})                        # the same under python -O (assertions stripped)
+    ch.append({'k': 'ids', 'pairs': False, 'optimize': True})
     if tier == 'quick':
         ch.append({'k': 'flags', 'vals': 'quick'})
         for reg in (False, True):
@@ -148,6 +150,9 @@ TEXT_CHARS = 'ABCDEFGHIJKLMNOPQRSTUVWXYZabcdefghijklmnopqrstuvwxyz0123456789-_. 
 
 
 def run_chunk(chunk):
+    routed = subchunk.route(__name__, chunk)
+    if routed is not None:
+        return routed
     res = ChunkResult()
     k = chunk['k']
     if k == 'bytes':
